@@ -263,6 +263,9 @@ def gen_small(seed):
         n = 1 + ch.below(600)
         body = bytes(b if b not in (0, 10, 13) else 0x2e for b in expand(b'inc' + ch.take(3), n))
         code, ck = b'--' + body + (b'\n' if ch.chance(128) else b''), 'incompressible'
+        if ch.chance(100):
+            # stored as plain text although it mentions _update60 (the compatibility suffix belongs to compressed code only)
+            code, ck = b'function _update60()end\n' + code, 'incompressible_update60'
     elif k == 5:
         code, _ = cartgen.filler_code(ch, max_lines=6)
         code = code.replace(b'\x00', b'\x01') + (b'\n' if code and not code.endswith(b'\n') else b'')
@@ -510,7 +513,7 @@ def vacuity(total, tier):
     msgs = []
     for lab in ('stored_raw', 'stored_compressed', 'refused', 'boundary_raw', 'boundary_compressed', 'boundary_header_edge',
                 'boundary_compressed_exact_fill', 'lua_object_of_other_version', 'label_fname_none_passed',
-                'dest_exists', 'dest_absent', 'dest_plain', 'dest_interlaced', 'dest_ancillary', 'dest_chunk_pHYs', 'convert', 'code_update60', 'code_table_rows', 'written_twice'):
+                'dest_exists', 'dest_absent', 'dest_plain', 'dest_interlaced', 'dest_ancillary', 'dest_chunk_pHYs', 'convert', 'code_update60', 'code_incompressible_update60', 'code_table_rows', 'written_twice'):
         if total.classes.get(lab, 0) < 1:
             msgs.append('class %s never seen' % lab)
     return msgs
